@@ -199,6 +199,25 @@ def run_check(pid, tier, seed):
         for m in explore.get('mismatches', []):
             broken.append({'what': 'correspondence', 'detail': m})
         found = list(explore.get('counterexamples', []))
+        if broken and not found and not explore.get('error') and os.environ.get('VERIF_NO_ESCALATE') != '1':
+            # a tie or a proof is broken but the exploration of this seed exhibited no failing input: search further with
+            # other seeds (other random cases, same structured cases) before giving up — only on this failure path
+            t_esc = time.time()
+            for extra in (1, 2):
+                if time.time() - t_esc > 240:
+                    break
+                ctx2 = Ctx(pid, tier, seed + extra)
+                ctx2.gen_ok, ctx2.model_available, ctx2.proofs = ctx.gen_ok, False, ctx.proofs
+                try:
+                    more = H.explore(ctx2) or {}
+                    found += list(more.get('counterexamples', []))
+                    ctx.notes.append(f'escalated search with seed {seed + extra}: {len(more.get("counterexamples", []))} failing input(s)')
+                except Exception as e:  # noqa: BLE001
+                    ctx.notes.append(f'escalated search with seed {seed + extra} failed: {type(e).__name__}: {e}')
+                finally:
+                    ctx2.cleanup()
+                if found:
+                    break
         if broken and not found and hasattr(H, 'search'):
             try:
                 found += H.search(ctx, broken) or []
